@@ -1,0 +1,377 @@
+//! Read-only accessors used by the external verification harness in /verif.
+//!
+//! Everything in this file (and the few `verif_*` methods elsewhere) only exists
+//! when the cargo feature `verif-hooks` is enabled. Nothing here changes any
+//! behaviour of the interpreter; all functions are pure observers.
+
+use compact_str::{CompactString, ToCompactString};
+
+use crate::Context;
+use crate::ast::{
+    BinaryOperator, DefineVariable, Expression, Statement, StringPart, TypeAnnotation,
+    UnaryOperator,
+};
+use crate::decorator::Decorator;
+use crate::prefix::Prefix;
+use crate::prefix_parser::PrefixParserResult;
+use crate::pretty_print::PrettyPrint;
+use crate::value::Value;
+
+/// Result of resolving an identifier with the session's prefix parser.
+#[derive(Debug, Clone, PartialEq, Eq)]
+pub enum Resolved {
+    /// Not read as a unit (plain identifier: variable, function, unknown, ...)
+    Identifier,
+    /// Read as a (possibly prefixed) unit
+    Unit {
+        /// `'M'` for metric, `'B'` for binary
+        prefix_kind: char,
+        /// exponent of 10 (metric) or 2 (binary); 0 = no prefix
+        prefix_exponent: i32,
+        /// the alias as written in the source (e.g. `m`)
+        alias: CompactString,
+        /// the full unit name (e.g. `meter`)
+        full_name: CompactString,
+    },
+}
+
+fn prefix_parts(p: &Prefix) -> (char, i32) {
+    match p {
+        Prefix::Metric(e) => ('M', *e),
+        Prefix::Binary(e) => ('B', *e),
+    }
+}
+
+impl Context {
+    /// The raw (unsimplified) value currently bound to a global variable name,
+    /// i.e. the VM stack slot of the innermost global binding of that name.
+    pub fn verif_raw_global(&self, name: &str) -> Option<Value> {
+        self.interpreter.verif_raw_global(name)
+    }
+
+    /// Resolve an identifier with the session's prefix parser.
+    pub fn verif_resolve(&self, ident: &str) -> Resolved {
+        match self.prefix_transformer.prefix_parser.parse(ident) {
+            PrefixParserResult::Identifier(_) => Resolved::Identifier,
+            PrefixParserResult::UnitIdentifier(_, prefix, alias, full_name) => {
+                let (prefix_kind, prefix_exponent) = prefix_parts(&prefix);
+                Resolved::Unit {
+                    prefix_kind,
+                    prefix_exponent,
+                    alias,
+                    full_name,
+                }
+            }
+        }
+    }
+
+    /// Number of values on the VM stack and number of call frames (session hygiene).
+    pub fn verif_vm_shape(&self) -> (usize, usize) {
+        self.interpreter.verif_vm_shape()
+    }
+}
+
+/// Parse `code` with the real tokenizer + parser and render the *untyped* syntax
+/// tree as a canonical S-expression (spans dropped). Parse errors are returned as
+/// their display strings.
+pub fn parse_sexpr(code: &str) -> Result<String, Vec<String>> {
+    match crate::parser::parse(code, 0) {
+        Ok(statements) => Ok(statements
+            .iter()
+            .map(stmt_sexpr)
+            .collect::<Vec<_>>()
+            .join("\n")),
+        Err((_, errors)) => Err(errors.iter().map(|e| e.kind.to_string()).collect()),
+    }
+}
+
+fn binop_name(op: &BinaryOperator) -> &'static str {
+    use BinaryOperator::*;
+    match op {
+        Add => "+",
+        Sub => "-",
+        Mul => "*",
+        Div => "/",
+        Power => "^",
+        ConvertTo => "->",
+        LessThan => "<",
+        GreaterThan => ">",
+        LessOrEqual => "<=",
+        GreaterOrEqual => ">=",
+        Equal => "==",
+        NotEqual => "!=",
+        LogicalAnd => "&&",
+        LogicalOr => "||",
+    }
+}
+
+fn quote(s: &str) -> String {
+    format!("{s:?}")
+}
+
+fn expr_sexpr(e: &Expression) -> String {
+    match e {
+        Expression::Scalar(_, n) => format!("(num {:?})", n.to_f64()),
+        Expression::Identifier(_, name) => format!("(id {name})"),
+        Expression::UnitIdentifier {
+            prefix,
+            name,
+            full_name,
+            ..
+        } => {
+            let (k, x) = prefix_parts(prefix);
+            format!("(unit {k}{x} {name} {full_name})")
+        }
+        Expression::TypedHole(_) => "(hole)".into(),
+        Expression::UnaryOperator { op, expr, .. } => match op {
+            UnaryOperator::Factorial(order) => format!("(fact{} {})", order, expr_sexpr(expr)),
+            UnaryOperator::Negate => format!("(neg {})", expr_sexpr(expr)),
+            UnaryOperator::LogicalNeg => format!("(not {})", expr_sexpr(expr)),
+        },
+        Expression::BinaryOperator { op, lhs, rhs, .. } => format!(
+            "({} {} {})",
+            binop_name(op),
+            expr_sexpr(lhs),
+            expr_sexpr(rhs)
+        ),
+        Expression::FunctionCall { callable, args, .. } => {
+            let mut s = format!("(call {}", expr_sexpr(callable));
+            for a in args {
+                s.push(' ');
+                s.push_str(&expr_sexpr(a));
+            }
+            s.push(')');
+            s
+        }
+        Expression::Boolean(_, b) => format!("(bool {b})"),
+        Expression::String(_, parts) => {
+            let mut s = String::from("(str");
+            for p in parts {
+                s.push(' ');
+                match p {
+                    StringPart::Fixed(f) => s.push_str(&quote(f)),
+                    StringPart::Interpolation {
+                        expr,
+                        format_specifiers,
+                        ..
+                    } => {
+                        s.push_str(&format!(
+                            "(interp {} {})",
+                            expr_sexpr(expr),
+                            quote(format_specifiers.unwrap_or(""))
+                        ));
+                    }
+                }
+            }
+            s.push(')');
+            s
+        }
+        Expression::Condition {
+            condition,
+            then_expr,
+            else_expr,
+            ..
+        } => format!(
+            "(if {} {} {})",
+            expr_sexpr(condition),
+            expr_sexpr(then_expr),
+            expr_sexpr(else_expr)
+        ),
+        Expression::InstantiateStruct { name, fields, .. } => {
+            let mut s = format!("(struct {name}");
+            for (_, n, v) in fields {
+                s.push_str(&format!(" ({n} {})", expr_sexpr(v)));
+            }
+            s.push(')');
+            s
+        }
+        Expression::AccessField {
+            expr, field_name, ..
+        } => format!("(field {} {field_name})", expr_sexpr(expr)),
+        Expression::List(_, elements) => {
+            let mut s = String::from("(list");
+            for a in elements {
+                s.push(' ');
+                s.push_str(&expr_sexpr(a));
+            }
+            s.push(')');
+            s
+        }
+    }
+}
+
+fn annotation_sexpr(a: &Option<TypeAnnotation>) -> String {
+    match a {
+        Some(a) => quote(&a.pretty_print().to_string()),
+        None => "_".into(),
+    }
+}
+
+fn decorators_sexpr(ds: &[Decorator]) -> String {
+    let mut s = String::from("(decorators");
+    for d in ds {
+        s.push(' ');
+        match d {
+            Decorator::MetricPrefixes => s.push_str("metric_prefixes"),
+            Decorator::BinaryPrefixes => s.push_str("binary_prefixes"),
+            Decorator::Abbreviation => s.push_str("abbreviation"),
+            Decorator::Aliases(aliases) => {
+                s.push_str("(aliases");
+                for (name, ap, _) in aliases {
+                    match ap {
+                        Some(ap) => s.push_str(&format!(
+                            " ({name} short={} long={})",
+                            ap.short, ap.long
+                        )),
+                        None => s.push_str(&format!(" ({name})")),
+                    }
+                }
+                s.push(')');
+            }
+            Decorator::Url(u) => s.push_str(&format!("(url {})", quote(u))),
+            Decorator::Name(u) => s.push_str(&format!("(name {})", quote(u))),
+            Decorator::Description(u) => s.push_str(&format!("(description {})", quote(u))),
+            Decorator::Example(a, b) => s.push_str(&format!(
+                "(example {} {})",
+                quote(a),
+                quote(b.as_deref().unwrap_or(""))
+            )),
+        }
+    }
+    s.push(')');
+    s
+}
+
+fn define_variable_sexpr(d: &DefineVariable) -> String {
+    format!(
+        "(let {} {} {} {})",
+        d.identifier,
+        annotation_sexpr(&d.type_annotation),
+        expr_sexpr(&d.expr),
+        decorators_sexpr(&d.decorators)
+    )
+}
+
+fn stmt_sexpr(s: &Statement) -> String {
+    match s {
+        Statement::Expression(e) => expr_sexpr(e),
+        Statement::DefineVariable(d) => define_variable_sexpr(d),
+        Statement::DefineFunction {
+            function_name,
+            type_parameters,
+            parameters,
+            body,
+            local_variables,
+            return_type_annotation,
+            decorators,
+            ..
+        } => {
+            let tps = type_parameters
+                .iter()
+                .map(|(_, n, b)| {
+                    if b.is_some() {
+                        format!("{n}:Dim")
+                    } else {
+                        n.to_string()
+                    }
+                })
+                .collect::<Vec<_>>()
+                .join(" ");
+            let ps = parameters
+                .iter()
+                .map(|(_, n, a)| format!("({n} {})", annotation_sexpr(a)))
+                .collect::<Vec<_>>()
+                .join(" ");
+            let locals = local_variables
+                .iter()
+                .map(define_variable_sexpr)
+                .collect::<Vec<_>>()
+                .join(" ");
+            format!(
+                "(fn {function_name} <{tps}> ({ps}) {} {} (where {locals}) {})",
+                annotation_sexpr(return_type_annotation),
+                body.as_ref().map(expr_sexpr).unwrap_or_else(|| "_".into()),
+                decorators_sexpr(decorators)
+            )
+        }
+        Statement::DefineDimension(_, name, dexprs) => {
+            let ds = dexprs
+                .iter()
+                .map(|d| quote(&d.pretty_print().to_string()))
+                .collect::<Vec<_>>()
+                .join(" ");
+            format!("(dimension {name} {ds})")
+        }
+        Statement::DefineBaseUnit(_, name, dexpr, decorators) => format!(
+            "(base_unit {name} {} {})",
+            dexpr
+                .as_ref()
+                .map(|d| quote(&d.pretty_print().to_string()))
+                .unwrap_or_else(|| "_".into()),
+            decorators_sexpr(decorators)
+        ),
+        Statement::DefineDerivedUnit {
+            identifier,
+            expr,
+            type_annotation,
+            decorators,
+            ..
+        } => format!(
+            "(derived_unit {identifier} {} {} {})",
+            annotation_sexpr(type_annotation),
+            expr_sexpr(expr),
+            decorators_sexpr(decorators)
+        ),
+        Statement::ProcedureCall(_, kind, args) => {
+            let mut s = format!("(proc {}", kind.name());
+            for a in args {
+                s.push(' ');
+                s.push_str(&expr_sexpr(a));
+            }
+            s.push(')');
+            s
+        }
+        Statement::ModuleImport(_, path) => format!("(use {})", path.0.join("::")),
+        Statement::DefineStruct {
+            struct_name,
+            type_parameters,
+            fields,
+            ..
+        } => {
+            let tps = type_parameters
+                .iter()
+                .map(|(_, n, b)| {
+                    if b.is_some() {
+                        format!("{n}:Dim")
+                    } else {
+                        n.to_string()
+                    }
+                })
+                .collect::<Vec<_>>()
+                .join(" ");
+            let fs = fields
+                .iter()
+                .map(|(_, n, a)| format!("({n} {})", quote(&a.pretty_print().to_string())))
+                .collect::<Vec<_>>()
+                .join(" ");
+            format!("(defstruct {struct_name} <{tps}> {fs})")
+        }
+    }
+}
+
+/// All (long name, short names, kind, exponent) entries of the prefix table the
+/// prefix parser uses.
+pub fn prefix_table() -> Vec<(CompactString, Vec<CompactString>, char, i32)> {
+    crate::prefix_parser::PrefixParser::verif_prefixes()
+        .iter()
+        .map(|(long, shorts, p)| {
+            let (k, x) = prefix_parts(p);
+            (
+                long.to_compact_string(),
+                shorts.iter().map(|s| s.to_compact_string()).collect(),
+                k,
+                x,
+            )
+        })
+        .collect()
+}
